@@ -198,6 +198,13 @@ pub fn record(mode: &str, seed: u64, n: usize, out: &mut Out) {
             stream.extend(b);
             bounds.push(stream.len());
         }
+        if out.events % 40 == 7 {
+            // a message beyond 32 KiB in the stream (legal up to 64 KiB)
+            let m = gen::boundary_message(&mut r, Some(sh));
+            let b = gen::ser(&m);
+            if !b.is_empty() { stream.extend(b); bounds.push(stream.len()); }
+        }
+        let nm = bounds.len();
         let c1 = r.below(nm as u64 + 1) as usize;
         let c2 = c1 + r.below((nm - c1) as u64 + 1) as usize;
         out.calls += 5;
